@@ -314,9 +314,20 @@ fn gen_p(ctx: &Ctx, seed: u64, run_index: u64) -> PScn {
     let mut o = Rng::for_stream(seed, stream::OPTIONS);
     let mut s = Rng::for_stream(seed, stream::SCHEDULE);
     let mut y = Rng::for_stream(seed, stream::SYSCALLS);
-    let (text, b) = gen_valid_texts(&mut w, ctx.thorough(), run_index);
+    let (mut text, b) = gen_valid_texts(&mut w, ctx.thorough(), run_index);
     let mut fired = Vec::new();
     let mut valid_input = true;
+    // hostile values for the metadata the CLI interprets (area, k_exp, location, RED1/RED2 factors)
+    if d.chance(0.15) {
+        let key = *d.pick(&["CTE_RED1", "CTE_RED2", "CTE_AREAREF", "CTE_KEXP", "CTE_LOCALIZACION"]);
+        let val = *d.pick(&[
+            "", "1", "1, 2", "1, 2, 3, 4", "a, b, c", "NaN, NaN, NaN", "inf, 0, 0", "(1, 2", "{ ren: 1 }", "{ ren: 1, nren: x, co2 }", "1;2;3", "-1", "0",
+            "0.0001", "2", "1e39", "abc", "MADRID", "PENINSULA ", "0,5", "1 2 3", ", ,", "1,,3",
+        ]);
+        text = format!("#META {}: {}\n{}", key, val, text.trim_start_matches('\u{feff}'));
+        fired.push(format!("components:hostile_metadata_{}", key));
+        valid_input = false;
+    }
     let comp = match d.below(10) {
         0..=4 => Blob::Utf8(text),
         5 => {
